@@ -156,6 +156,33 @@ def check_gbasis(label, factory, mesh, X, report, h=H_FD, tol=TOL, indices=None)
 
     for i in (range(nb) if indices is None else [k for k in indices if k < nb]):
         ref = fresh(factory).gbasis(mapping, X, i)
+        # the elementwise point layout (dim, nelems, npoints) — what FacetBasis / probes use — must deliver the same
+        # value AND the same derivative fields as the shared layout (dim, npoints) at the same points
+        X3 = np.ascontiguousarray(np.broadcast_to(X[:, None, :], (X.shape[0], nel, X.shape[1])))
+        try:
+            per = fresh(factory).gbasis(mapping, X3, i, tind=tind)
+        except Exception:  # noqa — reported (with fallback) by eval_at below
+            per = None
+        if per is not None:
+            for comp, (fa, fb) in enumerate(zip(ref, per)):
+                pairs = [('value', np.asarray(fa), np.asarray(fb))] + [(nm, np.asarray(v), np.asarray(getattr(fb, nm)))
+                                                                       for nm, v in _fields(fa).items() if getattr(fb, nm, None) is not None]
+                for nm, a, b in pairs:
+                    try:
+                        a2 = np.broadcast_to(a, b.shape)
+                    except ValueError:
+                        a2 = None
+                    sc = max(1.0, float(np.max(np.abs(a)))) if a.size else 1.0
+                    err = float(np.max(np.abs(a2 - b))) / sc if (a2 is not None and b.size) else (0.0 if a2 is not None else float('inf'))
+                    ncmp += b.size
+                    if not err <= 1e-9:
+                        report(f'elem={label}:{nm}:elementwise-points',
+                               f'{label}: field {nm} of basis function {i} delivered for elementwise points (dim, nelems, npoints) '
+                               f'differs from the one delivered for the same shared points (scaled difference {err:.3g})',
+                               {'element': label, 'i': i, 'component': comp, 'field': nm, 'mesh_class': type(mesh).__name__,
+                                'p': mesh.p.tolist(), 't': mesh.t.tolist(), 'X_local': np.asarray(X).tolist(),
+                                'shared_layout': np.asarray(a).tolist() if a.size < 50 else None,
+                                'elementwise_layout': np.asarray(b).tolist() if b.size < 50 else None})
         for comp, df in enumerate(ref):
             flds = _fields(df)
             if not flds:
